@@ -1496,6 +1496,12 @@ def judge_graph(case, g, ids):
         id_of_key.setdefault(keys[v], ids[v - nl])
     if len(set(id_of_key.values())) != len(id_of_key):
         return "graph: %d distinct operations share node ids %s (graph has %d operation nodes)" % (len(id_of_key), sorted(id_of_key.values()), sum(1 for n in nodes if not n[1]))
+    # view ids are hashes modulo 1033 in the same id space as the operand ids 0, 1, 2, ...: a view whose hash lands on an operand id is
+    # merged with that operand node (the class of C14-graph-id-hash-collision, recognisable only from the printed ids)
+    n_operands = max(len(leaf_nodes), nl)
+    coll = sorted(i for i in set(id_of_key.values()) if 0 <= i < n_operands)
+    if coll:
+        return "graph: view id(s) %s share node ids with the operands (operand ids are 0..%d)" % (coll, n_operands - 1)
     op_nodes = {n[0] for n in nodes if not n[1]}
     buf_nodes = {n[0]: n[2] for n in nodes if n[1]}
     if op_nodes != set(id_of_key.values()):
